@@ -109,7 +109,7 @@ func newReqEnv(c *fw.Ctx, params traceroute.TracerouteParams, target netip.Addr,
 			return nil, err
 		}
 		p.ServerISN = 0x51000000
-		p.ISNFor = func(h int) uint32 { return r.isnBase + uint32(h)*0x01000000 }
+		p.ISNForPort = func(port uint16) uint32 { return r.isnBase + uint32(port)*0x10000 }
 		r.peer = p
 		r.w.OnFilter = func(h *simnet.Handle, s packets.PacketFilterSpec) { p.OnFilter(h, s) }
 		r.w.OnReadStart = func(h *simnet.Handle) { p.OnReadStart(r.w, h) }
@@ -139,7 +139,7 @@ func (r *reqEnv) onEmit(h *simnet.Handle, em *simnet.Emission) {
 		}
 		fe = &simEnv{c: r.c, w: r.w, spec: spec, peer: r.peer, handle: h, unreg: func() {}}
 		if v.Proto == "sack" && r.peer != nil {
-			fe.isn = r.peer.ISNFor(h.Idx)
+			fe.isn = r.peer.ISNForPort(em.Pkt.SrcPort)
 		}
 		r.flows[h.Idx] = fe
 		if r.modelFor != nil {
